@@ -11,7 +11,7 @@ import z3
 
 from pyvc.ctx import Ctx, Explorer, Unsupported, PathAbort
 from pyvc.interp import Interp
-from pyvc.values import (Sym, Obj, PyRaise, Native, Bound, EnumMember, Opaque, unbox, z3int, z3str)
+from pyvc.values import (Sym, Obj, PyRaise, Native, Bound, EnumMember, Opaque, unbox, z3int, z3str, ReturnEx)
 from pyvc import natives as N
 from pyvc import aio as A
 from pyvc.symcoll import SymSet, SymSeq, SymMap, NameSetList
@@ -31,7 +31,7 @@ ASSUMPTIONS = [
     'time.time() is side-effect free',
 ]
 TRUSTED_BASE = ['pyvc engine', 'z3 (sets, arrays, strings with equality only)', 'fold step table in contracts/C19.py']
-NOT_DECIDED = ['RoomList.Response: the closing normalisation loop is under contract, the four list loops and the removal of unlisted rooms are not', 'JoinRoom.Response / RoomTickers.Response: the loops are under contract (one arbitrary element); the whole-handler fold is additionally run as a bounded stand-in (lists of length <= 2)', 'JoinRoom.Response: the weakest reading is used for the user list (superset of the announced users, nothing outside old + announced)']
+NOT_DECIDED = [ 'JoinRoom.Response / RoomTickers.Response: the loops are under contract (one arbitrary element); the whole-handler fold is additionally run as a bounded stand-in (lists of length <= 2)', 'JoinRoom.Response: the weakest reading is used for the user list (superset of the announced users, nothing outside old + announced)']
 
 
 def sstr(ctx, name):
@@ -588,6 +588,128 @@ def prove_replica_loops(src_root, ex: Explorer):
         pu = mgr.attrs['_privileged_users']
         ctx.prove('C19._on_privileged_users.set', isinstance(pu, SymSet) and ctx.valid(pu.term == users.elems))
     ex.run(privileged, 'privileged-users')
+
+
+    def room_list_lists(ctx: Ctx):
+        """RoomList.Response, the four list loops, one ARBITRARY entry each (lists of any length):
+             rooms[i]                  known afterwards, user_count = rooms_user_count[i]
+             rooms_private_owned[i]    known, owner = me, user_count = ..._owned_user_count[i]
+             rooms_private[i]          known, me in members, user_count = ..._user_count[i]
+             rooms_private_operated[i] known, me in operators
+           and nothing else about the room changes in that iteration"""
+        it = mk(src_root, ctx)
+        w = World(it, ctx)
+        which = ctx.choose(4, 'list')
+        I_ = z3.IntSort()
+        NAME, COUNT = z3.Function('name_at', I_, S), z3.Function('count_at', I_, I_)
+        i = ctx.fresh_int('i')
+        ctx.assume(i >= 0)
+
+        class IdxList:
+            def __init__(self, fn, kind):
+                self.fn, self.kind = fn, kind
+
+            def pyvc_getitem(self, it2, idx):
+                return Sym(self.fn(z3int(unbox(idx))), self.kind)
+
+            def pyvc_iter(self, it2, loop):
+                raise Unsupported('iteration over a message list without a contract')
+        fields = ['rooms', 'rooms_private_owned', 'rooms_private', 'rooms_private_operated']
+        counts = ['rooms_user_count', 'rooms_private_owned_user_count', 'rooms_private_user_count', None]
+        names = IdxList(NAME, 'str')
+        cnts = IdxList(COUNT, 'int')
+        attrs = {f: (names if k == which else Opaque(f)) for k, f in enumerate(fields)}
+        attrs.update({c: (cnts if k == which else Opaque(c)) for k, c in enumerate(counts) if c})
+        msg = Stub('RoomList.Response', **attrs)
+        orig_enum = it.natives['builtins.enumerate']
+        it.natives['builtins.enumerate'] = Native('builtins.enumerate', lambda it2, a, k: ('enumerate', a[0]) if a[0] is names else orig_enum.fn(it2, a, k))
+        seen = []
+
+        def focus(it2, node, env):
+            src = it2.eval(node.iter, env)
+            tgt = (Sym(i, 'int'), Sym(NAME(i), 'str')) if isinstance(node.target, ast.Tuple) else Sym(NAME(i), 'str')
+            it2.assign(node.target, tgt, env)
+            it2.exec_block(node.body, env)
+            seen.append(src)
+            raise ReturnEx('<iteration done>')
+        for o in range(6):
+            it.loop_specs[(ROOMLIST, o)] = focus if o == which else (lambda it2, node, env: None)
+        try:
+            run(it, it.getattr(w.mgr, '_on_room_list'), msg, Opaque('connection'))
+        except PyRaise as pr:
+            ctx.fail(f'C19._on_room_list.{fields[which]}.no-raise', repr(pr.exc))
+            return
+        ok = len(seen) == 1 and (seen[0] is names or seen[0] == ('enumerate', names))
+        ctx.prove(f'C19._on_room_list.{fields[which]}.iterates', ok)
+        rooms = [e for e in w.rooms.entries if e[2] and ctx.valid(z3str(unbox(e[0])) == NAME(i))]
+        ctx.prove(f'C19._on_room_list.{fields[which]}.room-known', len(rooms) == 1, 'a listed room must be known afterwards')
+        if len(rooms) != 1:
+            return
+        room = rooms[0][1]
+        existed = bool(room.ghost.get('existed'))
+        pre = room.ghost['pre'] if existed else w.empty_room_pre()
+        post = World.snapshot(room)
+        me = w.me.t
+        conj = []
+        if which != 3:
+            conj.append(z3int(unbox(post['user_count'])) == COUNT(i))
+        if which == 1:
+            conj.append(z3.BoolVal(post['owner'] is not None) if post['owner'] is None else z3str(unbox(post['owner'])) == me)
+        else:
+            conj.append(same(post['owner'], pre['owner']) if existed else z3.BoolVal(post['owner'] is None))
+        conj.append(post['members'] == (z3.SetAdd(pre['members'], me) if which == 2 else pre['members']))
+        conj.append(post['operators'] == (z3.SetAdd(pre['operators'], me) if which == 3 else pre['operators']))
+        conj.append(post['users'] == pre['users'])
+        if not existed:
+            conj.append(bterm(post['private']) == z3.BoolVal(which != 0))
+        conj = [z3.BoolVal(c) if isinstance(c, bool) else c for c in conj]
+        ctx.prove(f'C19._on_room_list.{fields[which]}.entry', z3.And(*conj),
+                  'a listed room must get the listed count and the role the list stands for (owner / member / operator = the logged-in user), nothing else')
+    ex.run(room_list_lists, 'room-list-lists')
+
+    def room_list_removal(ctx: Ctx):
+        """RoomList.Response: the rooms that are forgotten are exactly the known rooms that are in none of the three room lists (an
+        arbitrary one of them is deleted, by its name)"""
+        it = mk(src_root, ctx)
+        w = World(it, ctx)
+        lists = {k: SymSeq(ctx, k) for k in ('rooms', 'rooms_private_owned', 'rooms_private', 'rooms_private_operated')}
+        msg = Stub('RoomList.Response', **lists, rooms_user_count=Opaque('c'), rooms_private_owned_user_count=Opaque('c'), rooms_private_user_count=Opaque('c'))
+        KEYS = z3.Const('known_rooms', z3.SetSort(S))
+        deleted = []
+
+        class Rooms:
+            def pyvc_getattr(self, it2, n):
+                if n in ('items', 'keys', 'values'):
+                    return Native(n, lambda it3, a, k: (n, self))
+                raise Unsupported(n)
+
+            def pyvc_delitem(self, it2, key):
+                deleted.append(key)
+        rooms = Rooms()
+        w.mgr.attrs['_rooms'] = rooms
+        orig_set = it.natives['builtins.set']
+        it.natives['builtins.set'] = Native('builtins.set', lambda it2, a, k: SymSet(KEYS, S) if a and isinstance(a[0], tuple) and a[0][0] == 'keys' else orig_set.fn(it2, a, k))
+        orig_list = it.natives['builtins.list']
+        it.natives['builtins.list'] = Native('builtins.list', lambda it2, a, k: ['ALL'] if a and isinstance(a[0], tuple) else orig_list.fn(it2, a, k))
+        victim = sstr(ctx, 'forgotten_room')
+        seen = []
+
+        def removal(it2, node, env):
+            src = it2.eval(node.iter, env)
+            seen.append(src)
+            if isinstance(src, SymSet):
+                ctx.assume(z3.IsMember(victim.t, src.term))
+                it2.assign(node.target, victim, env)
+                it2.exec_block(node.body, env)
+        for o in range(6):
+            it.loop_specs[(ROOMLIST, o)] = removal if o == 4 else (lambda it2, node, env: None)
+        run(it, it.getattr(w.mgr, '_on_room_list'), msg, Opaque('connection'))
+        listed = z3.SetUnion(lists['rooms'].elems, lists['rooms_private'].elems, lists['rooms_private_owned'].elems)
+        ok = len(seen) == 1 and isinstance(seen[0], SymSet)
+        ctx.prove('C19._on_room_list.removal.set', ok and ctx.valid(seen[0].term == z3.SetDifference(KEYS, listed)),
+                  'the forgotten rooms must be exactly the known rooms that are in none of the room lists')
+        ctx.prove('C19._on_room_list.removal.deletes', len(deleted) == 1 and deleted[0] is victim, 'each of them must be deleted, by its name')
+    ex.run(room_list_removal, 'room-list-removal')
 
 
     def join_room_loop(ctx: Ctx):
